@@ -295,7 +295,8 @@ Proof.
   apply with_arg_ok; [lia|]. intros va0. destruct (to_datetime va0); [|discriminate].
   apply with_arg_ok; [lia|]. intros va1. destruct (to_integer va1); [|discriminate].
   apply with_arg_ok; [lia|]. intros va2. destruct (to_text va2) as [u|]; [|discriminate].
-  destruct u as [|c [|c' u]]; try discriminate. destruct (existsb _ _); discriminate.
+  destruct u as [|c [|c' u]]; try discriminate.
+  match goal with |- (if ?b then _ else _) <> _ => destruct b end; discriminate.
 Qed.
 
 Lemma array_fn_ok : forall args, array_fn args <> Panic.
@@ -381,7 +382,7 @@ Qed.
 Lemma object_fn_ok : forall args, object_fn args <> Panic.
 Proof.
   intros args. unfold object_fn. destruct (find is_err args); [discriminate|].
-  destruct (Nat.eqb (Nat.modulo (length args) 2) 0) eqn:E; simpl; [|discriminate].
+  destruct (Nat.eqb (Nat.modulo (length args) 2) 0) eqn:E; cbn [negb]; [|discriminate].
   apply object_pairs_ok; [|reflexivity].
   apply Nat.eqb_eq in E. apply Nat.even_spec. exists (length args / 2)%nat.
   pose proof (Nat.div_mod (length args) 2). lia.
